@@ -176,6 +176,10 @@ def c16(d):
         tol = 1e-5   # exp(GammaPoisson.log_prob) goes through betaln: ~1e-6 absolute in this jax (DESIGN C16)
     else:
         return _c16_hendrix(d, iv)
+    if not np.isfinite(prob).all():
+        i = np.argwhere(~np.isfinite(prob))[0]
+        return dict(status="violation", kind="non-finite",
+                    detail=f"{name} {p}: non-finite event probability at state {SS[i[0]].tolist()} action {AA[i[1]].tolist()} event {EE[i[2]].tolist()}")
     err = np.abs(prob - exp)
     if err.max() > tol:
         s_, a_, e_ = np.unravel_index(int(np.argmax(err)), err.shape)
